@@ -11,6 +11,7 @@ import (
 	"os"
 	"os/exec"
 	"path/filepath"
+	"regexp"
 	"sort"
 	"strconv"
 	"strings"
@@ -302,6 +303,7 @@ func cmdCheck(args []string) int {
 
 	var results []runResult
 	inconclusive := []string{}
+	droppedFiles := false
 	funcs := map[string]string{}
 	teeDir := filepath.Join(scratch, "tee")
 	os.MkdirAll(teeDir, 0o755)
@@ -315,6 +317,20 @@ func cmdCheck(args []string) int {
 		}
 		pat := "./" + g.Pkg
 		eng, err := LoadProgram(LoadConfig{Dir: spec.Repo, Patterns: []string{pat}, Tags: g.Tags, Overlay: ov})
+		// Harness files marked "// vx:optional" call internal helpers directly; when a
+		// refactor changes such a signature only those files are dropped (their
+		// harnesses become inconclusive) and the rest of the property is still decided.
+		for attempt := 0; err != nil && attempt < 3; attempt++ {
+			dropped := dropOptionalHarnessFiles(err.Error(), spec.Repo, ov, fm)
+			if len(dropped) == 0 {
+				break
+			}
+			for _, d := range dropped {
+				inconclusive = append(inconclusive, "optional harness file "+d+" does not compile against this tree and was left out")
+				droppedFiles = true
+			}
+			eng, err = LoadProgram(LoadConfig{Dir: spec.Repo, Patterns: []string{pat}, Tags: g.Tags, Overlay: ov})
+		}
 		if err != nil {
 			// A tree on which the harness no longer compiles is inconclusive, never an alarm.
 			fmt.Printf("INCONCLUSIVE property=%s harness package does not load: %v\n", prop, err)
@@ -341,6 +357,10 @@ func cmdCheck(args []string) int {
 				eng.maxPaths = v
 			}
 			h := eng.findHarness(r.Func)
+			if h == nil && droppedFiles {
+				inconclusive = append(inconclusive, "harness "+r.Func+" is in a file that was left out")
+				continue
+			}
 			if h == nil {
 				fmt.Printf("INCONCLUSIVE property=%s no harness function %s\n", prop, r.Func)
 				writeEvidenceFailure(prop, tier, seed, ps, "harness function missing: "+r.Func, time.Since(t0).Seconds())
@@ -1067,4 +1087,32 @@ func cmdReplay(prop, path string) int {
 	}
 	fmt.Println("replay passes on this tree")
 	return 0
+}
+
+var harnessFileRe = regexp.MustCompile(`zz_verif_[A-Za-z0-9_]+\.go`)
+
+// dropOptionalHarnessFiles removes from the overlay every harness file that is
+// named in the load error and is marked optional; it returns their names.
+func dropOptionalHarnessFiles(errText, repo string, ov map[string][]byte, fm map[string]string) []string {
+	var dropped []string
+	seen := map[string]bool{}
+	for _, name := range harnessFileRe.FindAllString(errText, -1) {
+		if seen[name] {
+			continue
+		}
+		seen[name] = true
+		for path, data := range ov {
+			if filepath.Base(path) != name || !strings.HasPrefix(string(data), "// vx:optional") {
+				continue
+			}
+			delete(ov, path)
+			for dst := range fm {
+				if filepath.Join(repo, dst) == path {
+					delete(fm, dst)
+				}
+			}
+			dropped = append(dropped, name)
+		}
+	}
+	return dropped
 }
